@@ -74,11 +74,14 @@ TIMEOUT = 600.0
 PER_SPEC = 10
 
 KINDS = ["reneg", "resub", "resub2", "swapadd", "swapmul", "tt", "mul1", "add0", "negneg", "resplit", "init_fresh", "init_repeat", "init_clash",
-         "custom", "keep", "asfn", "asfn_diamond"]
+         "custom", "keep", "asfn", "asfn_diamond", "mul1_fwd", "negneg_fwd", "tt_fwd"]
 # kind -> what the host generator plants
 PLANT = {"reneg": "neg", "resub": "sub", "resub2": "sub", "swapadd": "add", "swapmul": "mul", "tt": "tt", "mul1": "mul1", "add0": "add0",
          "negneg": "negneg", "resplit": "split", "init_fresh": "sub", "init_repeat": "sub", "init_clash": "sub", "custom": "relu",
-         "keep": "neg", "asfn": "subrelu", "asfn_diamond": "diamond"}
+         "keep": "neg", "asfn": "subrelu", "asfn_diamond": "diamond",
+         # replacements that FORWARD an existing value instead of creating a node (x*1 -> x, -(-x) -> x, a transpose pair that
+         # composes to the identity is left to tt): what takes over the matched output is a value the rule did not create
+         "mul1_fwd": "mul1", "negneg_fwd": "negneg", "tt_fwd": "tt"}
 STRATA = ["flat", "cf", "fn", "cf+fn", "cfonly"]   # cfonly: instances only inside If/Loop bodies, outer values named val_0/val_1
 CLASH = "c07_zero"
 
@@ -185,14 +188,14 @@ def pattern_ast(kind):
         return {"nodes": [N("Add", [V("x"), V("y")])], "outs": [["o", 0, 0]]}
     if kind == "swapmul":
         return {"nodes": [N("Mul", [V("x"), V("y")])], "outs": [["o", 0, 0]]}
-    if kind == "tt":
+    if kind in ("tt", "tt_fwd"):
         return {"nodes": [N("Transpose", [V("x")], attrs={"perm": ["av", "p1", False]}),
                           N("Transpose", [["o", 0, 0]], attrs={"perm": ["av", "p2", False]})], "outs": [["o", 1, 0]]}
-    if kind == "mul1":
+    if kind in ("mul1", "mul1_fwd"):
         return {"nodes": [N("Mul", [V("x"), ["c", 1.0]])], "outs": [["o", 0, 0]]}
     if kind == "add0":
         return {"nodes": [N("Add", [V("x"), ["c", 0.0]])], "outs": [["o", 0, 0]]}
-    if kind == "negneg":
+    if kind in ("negneg", "negneg_fwd"):
         return {"nodes": [N("Neg", [V("x")]), N("Neg", [["o", 0, 0]])], "outs": [["o", 1, 0]]}
     if kind == "resplit":
         return {"nodes": [N("Split", [V("x")], nout=2, attrs={"axis": ["av", "ax", False]})], "outs": [["o", 0, 0], ["o", 0, 1]]}
@@ -278,6 +281,14 @@ def make_rule(kind, notes=None):
             return op.Transpose(x, perm=[a[i] for i in b])
     elif kind in ("mul1", "add0", "negneg"):
         rep = lambda op, x, **_: op.Identity(x)  # noqa: E731
+    elif kind in ("mul1_fwd", "negneg_fwd"):
+        rep = lambda op, x, **_: x  # noqa: E731
+    elif kind == "tt_fwd":
+        def rep(op, x, p1, p2, **_):
+            a, b = list(p1.as_ints()), list(p2.as_ints())
+            comp = [a[i] for i in b]
+            # the pair composes to the identity: forward x itself; otherwise one Transpose
+            return x if comp == list(range(len(comp))) else op.Transpose(x, perm=comp)
     elif kind == "resplit":
         rep, cond = (lambda op, x, ax, **_: mark(op.Split(x, axis=ax.as_int(), num_outputs=2, _outputs=2))), guard
     elif kind in ("init_fresh", "init_repeat", "init_clash"):
